@@ -206,6 +206,7 @@ impl Mut {
             let oalive = sh.objs.contains_key(&other);
             violation("C02", "alloc:overlaps-live-or-recent-object", format!("alloc(size={}, sem={}) returned [{:#x},{:#x}) which overlaps object id {} at [{:#x},{:#x}) (known={}, plan {})", size, sem, start, start + size, other, s, e, oalive, w.cfg.plan));
         }
+        let reused = sh.dead_starts.remove(&start);
         let mut o = SObj { id, addr: r_addr, size: size as u32, nrefs: nrefs as u16, kind, sem, align_log, offset, flags, fields: vec![0; nrefs], pinned: false, born_epoch: sh.epoch, survived: 0, enqueued: false, moved_count: 0 };
         if referent_id != 0 {
             o.fields[0] = referent_id;
@@ -220,6 +221,13 @@ impl Mut {
         with_report("C02", |rep| {
             rep.evaluations += 1;
             rep.count("allocations_checked", 1);
+            if reused {
+                rep.count("allocations_at_address_of_a_dead_object", 1);
+            }
+            rep.key(mix(mix(0xC02, (size as u64).next_power_of_two()), mix(sem as u64, reused as u64)));
+            if reused && rep.want_sample() {
+                rep.sample(J::obj(vec![("plan", J::s(w.cfg.plan.clone())), ("size", J::i(size as u64)), ("sem", J::i(sem as u64)), ("addr", J::s(format!("{:#x}", start))), ("reuses_dead_object_address", J::Bool(true))]));
+            }
         });
         id
     }
